@@ -153,23 +153,29 @@ func buildArray(entries []pair) *pos.Validators {
 // drawn order, with stale (overwritten) entries before the final entry of an ID and zero-weight
 // entries for absent IDs mixed in.
 func reorder(t *rapid.T, m map[uint32]uint32, absent []uint32, maxW uint32) []pair {
-	l := rapid.Permutation(canon(m)).Draw(t, "order2")
-	noise := rapid.IntRange(0, 4).Draw(t, "noise")
-	for k := 0; k < noise; k++ {
-		p := rapid.IntRange(0, len(l)).Draw(t, "noisePos")
-		var e pair
-		if p < len(l) && rapid.Bool().Draw(t, "stale") {
-			// stale value of an ID whose final entry is at or after p
-			j := rapid.IntRange(p, len(l)-1).Draw(t, "staleOf")
-			e = pair{l[j].ID, rapid.OneOf(rapid.Just(uint32(0)), rapid.Uint32Range(1, maxW)).Draw(t, "staleW")}
-		} else if len(absent) > 0 {
-			e = pair{rapid.SampledFrom(absent).Draw(t, "absentID"), 0}
-		} else {
-			continue
-		}
+	l := rapid.Permutation(canon(m)).Draw(t, "order")
+	insert := func(p int, e pair) {
 		l = append(l, pair{})
 		copy(l[p+1:], l[p:])
 		l[p] = e
+	}
+	noise := rapid.IntRange(0, 5).Draw(t, "noise")
+	for k := 0; k < noise; k++ {
+		p := rapid.IntRange(0, len(l)).Draw(t, "noisePos")
+		kind := rapid.IntRange(0, 2).Draw(t, "noiseKind")
+		switch {
+		case kind == 0 && p < len(l):
+			// stale value of an ID whose later entry is at or after p
+			j := rapid.IntRange(p, len(l)-1).Draw(t, "staleOf")
+			insert(p, pair{l[j].ID, rapid.OneOf(rapid.Just(uint32(0)), rapid.Uint32Range(1, maxW)).Draw(t, "staleW")})
+		case kind == 1 && len(absent) > 0:
+			insert(p, pair{rapid.SampledFrom(absent).Draw(t, "absentID"), 0})
+		case kind == 2 && len(absent) > 0:
+			// a validator that is set and removed again later
+			id := rapid.SampledFrom(absent).Draw(t, "removedID")
+			insert(p, pair{id, rapid.Uint32Range(1, maxW).Draw(t, "removedW")})
+			insert(rapid.IntRange(p+1, len(l)).Draw(t, "removePos"), pair{id, 0})
+		}
 	}
 	return l
 }
@@ -180,37 +186,43 @@ var stCanon = stats.New("canonical")
 // gives the same canonical set, and RLP encode/decode preserves it.
 func TestC12Canonical(t *testing.T) {
 	rapid.Check(t, func(t *rapid.T) {
-		pool := rapid.SliceOfNDistinct(genID(), 2, 9, func(x uint32) uint32 { return x }).Draw(t, "pool")
-		spare := pool[len(pool)-1] // never used by the drawn operations
-		pool = pool[:len(pool)-1]
+		all := rapid.SliceOfNDistinct(genID(), 11, 11, func(x uint32) uint32 { return x }).Draw(t, "ids")
+		k := rapid.IntRange(0, 8).Draw(t, "members")
+		members, others, spare := all[:k], all[k:10], all[10]
 		const maxW = 1 << 27
 		tie := rapid.Uint32Range(1, maxW).Draw(t, "tie")
-		genW := rapid.OneOf(rapid.Just(uint32(0)), rapid.Uint32Range(1, 3), rapid.Just(tie), rapid.Just(tie+1), rapid.Uint32Range(1, maxW))
-		nops := rapid.IntRange(0, 12).Draw(t, "nops")
-		var ops []pair
-		overwrites, zeroSets := 0, 0
-		for i := 0; i < nops; i++ {
-			e := pair{rapid.SampledFrom(pool).Draw(t, "id"), genW.Draw(t, "w")}
-			if _, ok := model(ops)[e.ID]; ok {
-				overwrites++
-			}
-			if e.W == 0 {
-				zeroSets++
-			}
-			ops = append(ops, e)
+		genW := rapid.OneOf(rapid.Uint32Range(1, 3), rapid.Just(tie), rapid.Just(tie), rapid.Just(tie+1), rapid.Uint32Range(1, maxW))
+		m := map[uint32]uint32{}
+		for _, id := range members {
+			m[id] = genW.Draw(t, "w")
 		}
 		atMax := false
 		if rapid.IntRange(0, 7).Draw(t, "fillToMax") == 0 {
-			ops = append(ops, pair{spare, uint32(maxTotal - total(canon(model(ops))))})
+			m[spare] = uint32(maxTotal - total(canon(m)))
 			atMax = true
 		}
-		m := model(ops)
 		want := canon(m)
 		var absent []uint32
-		for _, id := range append(append([]uint32{}, pool...), spare) {
+		for _, id := range append(append([]uint32{}, others...), spare) {
 			if _, ok := m[id]; !ok {
 				absent = append(absent, id)
 			}
+		}
+		// first insertion order, with overwritten values, zero weights and removed validators
+		ops := reorder(t, m, absent, maxW)
+		overwrites, zeroSets := 0, 0
+		seenID := map[uint32]bool{}
+		for _, e := range ops {
+			if seenID[e.ID] {
+				overwrites++
+			}
+			seenID[e.ID] = true
+			if e.W == 0 {
+				zeroSets++
+			}
+		}
+		if len(model(ops)) != len(m) {
+			t.Fatalf("generator error: %v does not end in %v", ops, m)
 		}
 
 		// path 1: Builder.Set in the drawn order
@@ -264,7 +276,7 @@ func TestC12Canonical(t *testing.T) {
 			b1.Set(idx.ValidatorID(mutID), pos.Weight(mutW))
 			m2 := model(append(append([]pair{}, want...), pair{mutID, mutW}))
 			var absent2 []uint32
-			for _, id := range append(append([]uint32{}, pool...), spare) {
+			for _, id := range all {
 				if _, ok := m2[id]; !ok {
 					absent2 = append(absent2, id)
 				}
